@@ -116,6 +116,50 @@ def _b(x):
     return bool(x)
 
 
+def _placeholder(v):
+    """a non-finite float constant selected against a symbolic value (jnp.inf placeholders in loop carries): an
+    unconstrained fresh real -- an over-approximation for everything except finiteness tests, which refuse such terms"""
+    if isinstance(v, (float, np.floating)) and not math.isfinite(v):
+        c = sc.cur()
+        e = c.fresh("nonfinite")
+        c.data.setdefault("nonfinite", set()).add(str(e))
+        return SR(e)
+    return v
+
+
+def _ph_arr(a):
+    """non-finite float constants meeting symbolic arithmetic -> placeholders (see _placeholder)"""
+    if a.dtype != object:
+        return a
+    flat = a.reshape(-1)
+    if not any(isinstance(v, (float, np.floating)) and not math.isfinite(v) for v in flat):
+        return a
+    out = np.empty(a.shape, dtype=object)
+    for idx in np.ndindex(*a.shape):
+        out[idx] = _placeholder(a[idx])
+    return out
+
+
+def _mentions_nonfinite(v):
+    names = sc.cur().data.get("nonfinite")
+    if not names or not isinstance(v, (SR, SC)):
+        return False
+    import z3
+    seen, todo = set(), ([v.n, v.d] if isinstance(v, SR) else [v.re.n, v.re.d, v.im.n, v.im.d])
+    while todo:
+        t = todo.pop()
+        if t.get_id() in seen:
+            continue
+        seen.add(t.get_id())
+        if z3.is_const(t) and t.decl().kind() == z3.Z3_OP_UNINTERPRETED and str(t) in names:
+            return True
+        todo.extend(t.children())
+    return False
+
+
+FORK = [False]     # fork mode: symbolic conditions become path decisions (Ctx.branch) instead of ite terms
+
+
 def _ite(c, a, b):
     if isinstance(c, SB):
         import z3 as _z3
@@ -124,9 +168,12 @@ def _ite(c, a, b):
             return a
         if _z3.is_false(ce):
             return b
+        if FORK[0]:
+            return a if sc.cur().branch(ce) else b
         if isinstance(a, SB) or isinstance(b, SB) or isinstance(a, (bool, np.bool_)) and isinstance(b, (bool, np.bool_)):
             import z3
             return SB(z3.If(c.e, SB._l(a), SB._l(b)))
+        a, b = _placeholder(a), _placeholder(b)
         ints = (int, np.integer, SI)
         if isinstance(a, ints) and isinstance(b, ints) and not isinstance(a, (bool, np.bool_)) and not isinstance(b, (bool, np.bool_)):
             import z3
@@ -216,6 +263,7 @@ class Interp:
         self.while_bound = while_bound
         self.validate = validate          # force every equation through the symbolic implementations (float objects)
         self.unwinding = []               # SB conditions that must be false (loop bound sufficient)
+        self.callbacks = []               # inputs of host callbacks met (no-ops)
 
     # ------------------------------------------------------------------
     def eval_closed(self, closed, *args):
@@ -280,8 +328,9 @@ class Interp:
 
     # -- arithmetic ------------------------------------------------------
     def _bin(self, f, ins):
-        a, b = ins
-        return [np.asarray(f(_asobj(a), _asobj(b)), dtype=object)]
+        a, b = _asobj(ins[0]), _asobj(ins[1])
+        a, b = _ph_arr(a), _ph_arr(b)
+        return [np.asarray(f(a, b), dtype=object)]
 
     def p_add(self, ins, params, eqn):
         return self._bin(lambda a, b: a + b, ins)
@@ -400,6 +449,9 @@ class Interp:
         raise NotEncodable("digamma")
 
     def p_is_finite(self, ins, params, eqn):
+        for v in _asobj(ins[0]).reshape(-1):
+            if _mentions_nonfinite(v):
+                raise NotEncodable("finiteness test of a value that may be a non-finite placeholder")
         return [np.ones(np.shape(ins[0]), dtype=bool)]
 
     def p_real(self, ins, params, eqn):
@@ -697,6 +749,11 @@ class Interp:
 
     p_unstack = p_split
 
+    def p_debug_callback(self, ins, params, eqn):
+        """host callbacks (logging, conditional_raise) have no results: no-ops here; the symbolic inputs are kept for harnesses"""
+        self.callbacks.append(ins)
+        return []
+
     # -- control flow ---------------------------------------------------------------
     def p_pjit(self, ins, params, eqn):
         closed = params.get("jaxpr") or params.get("call_jaxpr")
@@ -733,6 +790,13 @@ class Interp:
             k = int(np.clip(int(np.asarray(idx)), 0, len(branches) - 1))
             return self.eval_jaxpr(branches[k].jaxpr, branches[k].consts, *ops)
         i = idx.reshape(-1)[0]
+        if FORK[0]:
+            ctx = sc.cur()
+            for k in range(len(branches) - 1):
+                c = (i == k) if not isinstance(i, SB) else (~i if k == 0 else i)
+                if ctx.branch(SB._l(c)):
+                    return self.eval_jaxpr(branches[k].jaxpr, branches[k].consts, *ops)
+            return self.eval_jaxpr(branches[-1].jaxpr, branches[-1].consts, *ops)
         outs = [self.eval_jaxpr(b.jaxpr, b.consts, *ops) for b in branches]
         res = outs[-1]
         for k in range(len(branches) - 2, -1, -1):
@@ -769,6 +833,10 @@ class Interp:
                 if isinstance(cb, SB):
                     ce = z3.simplify(cb.e)
                     cb = True if z3.is_true(ce) else (False if z3.is_false(ce) else cb)
+                if isinstance(cb, SB) and FORK[0]:
+                    if k > 4 * self.while_bound + 64:
+                        raise sc.Inconclusive("while loop exceeds the unrolling bound in fork mode")
+                    cb = bool(ctx.branch(cb.e))
             else:
                 cb = bool(np.asarray(c))
             if cb is False:
@@ -913,7 +981,7 @@ def _example(leaf):
     return a
 
 
-def jcall(B, fn, *args, while_bound=4, interp=None):
+def jcall(B, fn, *args, while_bound=4, interp=None, fork=False):
     """call the real JAX function ``fn`` on a pytree of NumPy arrays.
 
     symbolic back end: trace to a jaxpr at the arguments' shapes and interpret it over the symbolic leaves;
@@ -937,7 +1005,12 @@ def jcall(B, fn, *args, while_bound=4, interp=None):
     STATS["jaxprs"] += 1
     it = interp or Interp(while_bound=while_bound)
     it.B = B
-    outs = it.eval_closed(closed, *leaves)
+    old = FORK[0]
+    FORK[0] = bool(fork)
+    try:
+        outs = it.eval_closed(closed, *leaves)
+    finally:
+        FORK[0] = old
     for cnd in it.unwinding:
         B.holds("unwinding assertion: loop bound sufficient", ~cnd if isinstance(cnd, SB) else (not cnd))
     it.unwinding = []
